@@ -1003,6 +1003,9 @@ def readGraph(input_file,
         except UnicodeEncodeError as errmsg:
             raise ValueError(
                 "[Non-ascii chars in GML file] {} ".format(errmsg))
+        except (TypeError, AttributeError, IndexError) as errmsg:
+            # damaged GML may trip the parser or the conversion in other ways
+            raise ValueError("[Parse error in GML input] {} ".format(errmsg))
 
     elif file_format == 'kthlist' and graph_type == 'bipartite':
 
